@@ -194,7 +194,7 @@ def main(S, env):
     v = S.node.make(env)
     want = e2e_expected(S)
     kw = {"dialect": S.call_dialect} if S.call_dialect is not None else {}
-    if S.variant == "mixin":
+    if S.variant in ("mixin", "mixin3"):
         st, d = call(lambda: S.cls(x=v).to_dict(**kw))
         got = d.get("x") if st == "ok" else d
     else:
@@ -211,7 +211,7 @@ def main(S, env):
         return fail("C10/e2e-wrong-winner:ser", cells=S.cells, got=got, want=exp)
     # deserialize direction: the marker wraps the raw input
     raw = list(v)
-    if S.variant == "mixin":
+    if S.variant in ("mixin", "mixin3"):
         st, r = call(lambda: S.cls.from_dict({"x": raw}, **kw))
         got = r.x if st == "ok" else r
     else:
@@ -287,6 +287,12 @@ def build_e2e(cells, variant, pt=None):
             _FmtMixin__mashumaro_builder_params = {"packer": {"dialect": def_d}, "unpacker": {"dialect": def_d}}
 
         base = FmtMixin
+    if variant == "mixin3":
+        # three levels: the grandparent declares x plainly, the middle class re-declares it with the options, the leaf inherits it
+        G = dataclasses.make_dataclass("G", [("x", ALIAS_T)], bases=(base,), namespace=dict(ns))
+        M = dataclasses.make_dataclass("M", [("x", ALIAS_T, dataclasses.field(metadata=md))], bases=(G,), namespace=dict(ns))
+        cls = dataclasses.make_dataclass("H", [("y", int, dataclasses.field(default=0))], bases=(M,), namespace=ns)
+        return cls, call_d, None, None
     cls = dataclasses.make_dataclass("H", [("x", ALIAS_T, dataclasses.field(metadata=md))], bases=(base,), namespace=ns)
     return cls, call_d, None, None
 
